@@ -405,6 +405,58 @@ def do_check(pid, tier, seed):
                     violations.append((rpf, "TLC-generated behaviour: " + text))
             if n == 0:
                 raise ToolError("model %s emitted no behaviours" % m["cfg"])
+            if m.get("dump_paths"):
+                # C11 on the implementation, in the states TLC enumerated: path, dump(), restore into a
+                # fresh terminal, probe battery on both - recorded and judged by the trace specification
+                probes = ["\x1b[1;1HX", "\n", "\x1b[999;1H\nY", "\x1b[1;999Hab", "\x0eaq\x0fq", "\r\t\tT", "\x1b8P",
+                          "\u009b?1047h\x1b8Q", "\u009b?1047lR", "abc", "\r\n", "m", ";5H", "\x1b\\"]
+                rp = os.path.join(wd, "dump-paths-%s.replay.ndjson" % m["cfg"])
+                k = 0
+                stride = max(1, n // m["dump_paths"])
+                with open(beh) as f, open(rp, "w") as o:
+                    for idx, ln in enumerate(f):
+                        if idx % stride:
+                            continue
+                        b = json.loads(ln)
+                        k += 1
+                        o.write(json.dumps({"ev": "ep", "id": k, "drv": "C11X"}) + "\n")
+                        o.write(json.dumps({"ev": "new", "slot": 1, "cols": b["init"][0], "rows": b["init"][1], "lim": b["init"][2]}) + "\n")
+                        for op in b["ops"]:
+                            if op["k"] == "fs":
+                                o.write(json.dumps({"ev": "fs", "slot": 1, "s": op["s"], "consumed": True}) + "\n")
+                            else:
+                                o.write(json.dumps({"ev": "rs", "slot": 1, "cols": op["c"], "rows": op["r"], "consumed": True}) + "\n")
+                        o.write('{"ev":"dump","slot":1}\n{"ev":"newlike","from":1,"lim":%d}\n{"ev":"fsdump","slot":2,"from":1}\n' % b["init"][2])
+                        o.write('{"ev":"rel","name":"ObsEq","slots":[1,2]}\n')
+                        pr = probes[(k * 3) % len(probes)], probes[(k * 3 + 1) % len(probes)], probes[(k * 3 + 2) % len(probes)]
+                        for p_ in pr:
+                            for sl in (1, 2):
+                                o.write(json.dumps({"ev": "fs", "slot": sl, "s": [ord(ch) for ch in p_], "consumed": True}) + "\n")
+                            o.write('{"ev":"rel","name":"ObsEq","slots":[1,2]}\n')
+                tr = os.path.join(wd, "dump-paths-%s.trace.ndjson" % m["cfg"])
+                p3 = subprocess.run([HARNESS, "replay", rp, "--out", tr], stdout=subprocess.PIPE, stderr=subprocess.STDOUT, text=True, timeout=600)
+                jobs.append((None, tr, "C11X"))
+                path3, res3, _ = validate((None, tr, "C11X"))
+                events += res3["accepted"]
+                trace_states += res3["states"]
+                drift += len(res3["drift"])
+                viol3, kn3, fo3 = classify(pid, res3, known)
+                foreign += fo3
+                model_runs[-1]["dump_paths_checked"] = k
+                for (l, text) in kn3:
+                    known_hits.append((tr, l, text))
+                seen3 = set()
+                for (l, text) in sorted(viol3):
+                    ep = episode_slice(tr, l)
+                    if ep and ep[0] in seen3:
+                        continue
+                    seen3.add(ep[0])
+                    nfail += 1
+                    rpf = os.path.join(wd, "fail-%d.ndjson" % nfail)
+                    with open(rpf, "w") as f:
+                        f.write("\n".join(ep) + "\n")
+                        f.write(json.dumps({"ev": "verdict", "property": pid, "event": len(ep), "text": text}) + "\n")
+                    violations.append((rpf, "state enumerated by TLC (%s): %s" % (m["cfg"], text)))
 
     # ---- 4. verdict + evidence
     for (path, l, text) in known_hits[:1] if False else []:
